@@ -52,7 +52,7 @@ class Evidence:
             self.cov["samples"].append(obj)
 
     def write(self, level="model_checking"):
-        d = os.path.join(VERIF, "evidence")
+        d = os.path.join(os.environ.get("VERIF_OUT", VERIF), "evidence")
         os.makedirs(d, exist_ok=True)
         if not self.cov["samples"]:
             self.cov["samples"].append("no case executed")
@@ -66,7 +66,7 @@ class Evidence:
 
 
 def save_replay(pid, obj):
-    d = os.path.join(VERIF, "replays", pid)
+    d = os.path.join(os.environ.get("VERIF_OUT", VERIF), "replays", pid)
     os.makedirs(d, exist_ok=True)
     n = len([x for x in os.listdir(d) if x.endswith(".json")])
     p = os.path.join(d, f"{n:04d}.json")
